@@ -119,11 +119,19 @@ pub mod step {
     }
 }
 
-/// One step of `position ... moves`:  for any parser answer, any checked list, any game of length < 400:
+/// A5: what a search can add on top of an accepted game: at most 33 plies of main search (the killer
+/// table has 32 slots) plus one capture per remaining enemy piece in the quiescence search (<= 30).
+pub const SEARCH_MARGIN: usize = 64;
+/// the longest game the `position` command may leave in place: 512 - 1 - SEARCH_MARGIN
+pub const MAX_ACCEPTED_LEN: usize = 511 - SEARCH_MARGIN;
+
+/// One step of `position ... moves`:  for any parser answer, any checked list, any game of at most
+/// MAX_ACCEPTED_LEN entries:
 ///   * the move is played (push_history, exactly once, exactly the parsed move) iff the parser answered
 ///     Some(m) and m is a member of the CHECKED list; otherwise an error is returned and nothing is played;
-///   * a parse failure drops the game; after a played move the game survives iff its length is < 400
-///     (so push is never reached with 400 or more entries: the 512-entry state stack cannot overflow here).
+///   * a parse failure drops the game; after a played move either the game is dropped with an error or it
+///     still has at most MAX_ACCEPTED_LEN entries (inductive: with the search margin, the 512-entry state
+///     stack cannot overflow for games this command accepted).  The engine's guard (400) is not hard-wired here.
 #[cfg(kani)]
 #[kani::proof]
 #[kani::unwind(5)]
@@ -135,7 +143,7 @@ pub mod step {
 pub fn position_step_contract() {
     use crate::chess::verif_chess::{mk, sym_move};
     let len0 = nd::u16() as usize;
-    nd::assume(1 <= len0 && len0 < 400);
+    nd::assume(1 <= len0 && len0 <= MAX_ACCEPTED_LEN);
     let mut data = Data { current_game: Some(mk::game_with_len(len0)), cache: HashMap::with_hasher(BuildNoHashHasher::default()) };
     let parsed = if nd::bool() { Some(sym_move(nd::u8_in(0, 4))) } else { None };
     let l0 = if nd::bool() { Some(sym_move(nd::u8_in(0, 4))) } else { None };
@@ -151,15 +159,18 @@ pub fn position_step_contract() {
     assert!(asked_checked, "C12: acceptance is tested against the unchecked move list");
     if member {
         assert!(pushed == 1 && pushed_move == parsed, "C12: a legal move was not played exactly once / another move was played");
-        assert!(len_at_push < 400, "C15: push reached with 400 or more state entries");
-        assert!(ok == (len0 + 1 < 400), "C15: length guard (error iff the game reached 400 entries)");
-        assert!(data.current_game.is_some() == (len0 + 1 < 400), "C15: a game of 400 entries is kept");
+        assert!(len_at_push == len0 && len_at_push <= 511, "C15: push reached with a full state stack");
+        assert!(ok == data.current_game.is_some(), "C12/C15: after a played move, success is reported iff the game is kept");
+        if let Some(g) = data.current_game.as_ref() {
+            assert!(g.len() <= MAX_ACCEPTED_LEN, "C15: the position command keeps a game too long for a search to fit in the 512-entry state stack");
+        }
     } else {
         assert!(pushed == 0, "C12: a string that is not the text of a legal move was played");
         assert!(!ok, "C12: a string that is not the text of a legal move was accepted without error");
         if parsed.is_none() { assert!(data.current_game.is_none(), "C12: unparsable move keeps the game"); }
     }
-    vcover!(member && len0 == 398, "playing the 399th entry reachable");
+    vcover!(member && data.current_game.is_some(), "a move played and the game kept reachable");
+    vcover!(member && data.current_game.is_none(), "a move played and the game dropped for length reachable");
     vcover!(!member && parsed.is_some(), "parsed but not legal reachable");
 }
 /// error texts are irrelevant to the contract; formatting them dominates CBMC's cost
